@@ -1000,3 +1000,75 @@ Proof.
   rewrite (InvW_events np es st HI). destruct HI as (_ & Hw & _).
   apply (acts_ok_wf es []). exact Hw.
 Qed.
+
+(* ---------- per command: in the log iff its PLog write took effect ---------- *)
+
+Lemma stamped_ge : forall steps tag outs t c o, In (t, c, o) (stamped tag steps outs) -> tag <= t.
+Proof.
+  induction steps as [|stp r IH]; intros tag outs t c o H; cbn [stamped] in H; [destruct H|].
+  destruct stp as [c0 plan|]; [|eapply IH; exact H].
+  destruct outs as [|o0 os]; [destruct H|]. destruct H as [E|H].
+  - inversion E; subst. lia.
+  - apply IH in H. lia.
+Qed.
+
+Lemma stamped_inj : forall steps tag outs t c o c' o',
+  In (t, c, o) (stamped tag steps outs) -> In (t, c', o') (stamped tag steps outs) -> c = c' /\ o = o'.
+Proof.
+  induction steps as [|stp r IH]; intros tag outs t c o c' o' H H'; cbn [stamped] in *; [destruct H|].
+  destruct stp as [c0 plan|]; [|eapply IH; eassumption].
+  destruct outs as [|o0 os]; [destruct H|].
+  destruct H as [E|H]; destruct H' as [E'|H'].
+  - inversion E; inversion E'; subst. split; reflexivity.
+  - inversion E; subst. apply stamped_ge in H'. lia.
+  - inversion E'; subst. apply stamped_ge in H. lia.
+  - eapply IH; eassumption.
+Qed.
+
+Lemma written_stamped : forall steps tag outs x,
+  In x (written_cmds tag steps outs) <-> In x (stamped tag steps outs) /\ o_written (snd x) = true.
+Proof.
+  induction steps as [|stp r IH]; intros tag outs x; cbn [written_cmds stamped]; [cbn; tauto|].
+  destruct stp as [c0 plan|]; [|apply IH].
+  destruct outs as [|o0 os]; [cbn; tauto|].
+  rewrite in_app_iff, IH. cbn [In]. destruct (o_written o0) eqn:Ew; cbn [In].
+  - split.
+    + intros [[<-|[]]|[H1 H2]]; [split; [left; reflexivity | exact Ew] | split; [right; exact H1 | exact H2]].
+    + intros [[<-|H1] H2]; [left; left; reflexivity | right; split; assumption].
+  - split.
+    + intros [[]|[H1 H2]]. split; [right; exact H1 | exact H2].
+    + intros [[<-|H1] H2]; [cbn in H2; congruence | right; split; assumption].
+Qed.
+
+Lemma Forall2_in_l {A B} (R : A -> B -> Prop) l l' : Forall2 R l l' -> forall a, In a l -> exists b, In b l' /\ R a b.
+Proof.
+  induction 1 as [|x y l l' Hxy _ IH]; intros a Ha; [destruct Ha|].
+  destruct Ha as [<-|Ha]; [exists y; split; [left; reflexivity | exact Hxy]|].
+  destruct (IH a Ha) as (b & Hb & Hr). exists b. split; [right; exact Hb | exact Hr].
+Qed.
+
+Lemma Forall2_in_r {A B} (R : A -> B -> Prop) l l' : Forall2 R l l' -> forall b, In b l' -> exists a, In a l /\ R a b.
+Proof.
+  induction 1 as [|x y l l' Hxy _ IH]; intros b Hb; [destruct Hb|].
+  destruct Hb as [<-|Hb]; [exists x; split; [left; reflexivity | exact Hxy]|].
+  destruct (IH b Hb) as (a & Ha & Hr). exists a. split; [right; exact Ha | exact Hr].
+Qed.
+
+(* a command is in the log (and then in every store, by consistency) iff its PLog write took
+   effect, whatever it was answered *)
+Theorem command_in_log_iff_written_proved k ords np steps st outs :
+  k_early k = true -> ords_ok np ords ->
+  run k ords 1 steps state0 = (st, outs) ->
+  forall t c o, In (t, c, o) (stamped 1 steps outs) ->
+  (o_written o = true -> exists e, In e (events st) /\ e_tag e = t /\ event_matches c e = true /\ reply_fits o e)
+  /\ (o_written o = false -> forall e, In e (events st) -> e_tag e <> t).
+Proof.
+  intros He Hords H t c o Hin.
+  destruct (log_is_the_written_commands_proved k ords np steps st outs He Hords H) as (Hl & _).
+  split.
+  - intros Hw. assert (Hx : In (t, c, o) (written_cmds 1 steps outs)) by (apply written_stamped; split; assumption).
+    destruct (Forall2_in_r _ _ _ Hl _ Hx) as (e & He' & Hf). exists e. split; [exact He'|]. exact Hf.
+  - intros Hw e He' Ht. destruct (Forall2_in_l _ _ _ Hl _ He') as ([[t' c'] o'] & Hx & Hf).
+    destruct Hf as (Ht' & _). apply written_stamped in Hx. destruct Hx as (Hs & Hw'). cbn in Hw'.
+    rewrite Ht in Ht'. subst t'. destruct (stamped_inj _ _ _ _ _ _ _ _ Hin Hs) as (_ & <-). congruence.
+Qed.
